@@ -2,6 +2,12 @@
 # one-off build after a fresh restore (offline): translator output, Lean library, model driver
 set -e
 cd "$(dirname "$0")"
+# two passes: a translator may read another translator's output (py2gminit reads the binder lists of JunctionTreeG.lean)
+for pass in 1 2; do
+  for t in tools/py2*.py; do
+    /venv/bin/python "$t" --repo /repo --out lean/PGM/Generated >/dev/null 2>&1 || true
+  done
+done
 for t in tools/py2*.py; do
   /venv/bin/python "$t" --repo /repo --out lean/PGM/Generated || true
 done
